@@ -264,9 +264,10 @@ var c13Colliding = []int{1, 13, 2, 9, 10, 12, 24, 25}
 func c13Scenarios(thorough bool) []*c13Scenario {
 	A := c13calls.Alphabet
 	mk := func(name string, threads ...[]int) *c13Scenario {
-		sc := &c13Scenario{Name: name, MaxPreemptions: 2, MaxMapDev: 1, MaxExecutions: 20000, BudgetS: 15}
+		// the cap that matters is the (deterministic) number of executions; the time budget is only a safety net
+		sc := &c13Scenario{Name: name, MaxPreemptions: 2, MaxMapDev: 1, MaxExecutions: 30000, BudgetS: 90}
 		if thorough {
-			sc.MaxPreemptions, sc.MaxMapDev, sc.MaxExecutions, sc.BudgetS = 3, 2, 400000, 120
+			sc.MaxPreemptions, sc.MaxMapDev, sc.MaxExecutions, sc.BudgetS = 3, 2, 600000, 900
 		}
 		for _, th := range threads {
 			var cs []c13calls.Call
